@@ -548,6 +548,16 @@ class Interp:
             return
         self.w.exec_special_for(self, st, it, env)
 
+    def run_loop_body(self, st, env):
+        """One iteration of a loop body; returns True when the loop is left with ``break``."""
+        try:
+            self.exec_block(st.body, env)
+        except _Continue:
+            return False
+        except _Break:
+            return True
+        return False
+
     # -- assignment ------------------------------------------------------------
     def assign(self, tgt, v, env, aug=None):
         if isinstance(tgt, ast.Name):
@@ -1053,6 +1063,17 @@ class Interp:
             seq = _concrete_seq(args[0])
             if seq is not None and all(isinstance(x, Const) and isinstance(x.v, (int, float)) for x in seq):
                 return ListObj(sorted(seq, key=lambda c: c.v))
+            if seq is not None and seq and all(isinstance(x, (ListObj, TupleV)) and x.items and all(isinstance(y, Int) for y in x.items)
+                                               for x in seq):
+                import functools
+
+                def lex(a, b):
+                    for p, q in zip(a.items, b.items):
+                        if self.cmp_int(p, q, "==", node):
+                            continue
+                        return -1 if self.cmp_int(p, q, "<", node) else 1
+                    return len(a.items) - len(b.items)
+                return ListObj(sorted(seq, key=functools.cmp_to_key(lex)))
             if seq is not None and seq and all(isinstance(x, Int) for x in seq):
                 import functools
                 return ListObj(sorted(seq, key=functools.cmp_to_key(
